@@ -1,11 +1,12 @@
 #!/bin/bash
 # run the repository's own test suite (guard off) at every "fix:" commit of /repo in a scratch worktree
-# usage: verify_fix_commits.sh [outfile]
+# usage: verify_fix_commits.sh [outfile] [since-commit (exclusive; appends to outfile)]
 out=${1:-/verif/fix_commit_tests.log}
-: > $out
+since=$2
+if [ -z "$since" ]; then : > $out; range=HEAD; else sed -i '/^done$/d' $out; range=$since..HEAD; fi
 export CARGO_NET_OFFLINE=true
 wt=/tmp/wt_fixverify
-for c in $(git -C /repo log --reverse --format=%h --grep='^fix:'); do
+for c in $(git -C /repo log --reverse --format=%h --grep='^fix:' $range); do
   subj=$(git -C /repo log -1 --format=%s $c)
   rm -rf $wt; git -C /repo worktree prune
   git -C /repo worktree add -f $wt $c >/dev/null 2>&1 || { echo "$c worktree failed" >> $out; continue; }
